@@ -224,6 +224,12 @@ func buildC10Pool(env *Env, r *Rand, n int) ([]poolProg, [][]int) {
 		}
 		add("nested-label-names", b.String())
 	}
+	// every refused program that shares identifiers with the valid ones is in the pool at every seed (the seeded picks further
+	// down add more copies): what a failed assembly remembers about a NAME must not depend on the luck of the draw
+	for _, s := range []string{"K0\tEQU\tK1*2\nK1\tEQU\t[K0*2]\n\tMOV AX,K1\n", "K2\tEQU\tK3+1\nK3\tEQU\t8:K2\n\tJMP K3\n", "K0\tEQU\tK0+1\n\tDD K0\n", "K1\tEQU\tnolabel\n\tMOV AX,K1\n\tDB 5\n",
+		"L0:\n\tJMP L1\n\tDW L9\n", "K0\tEQU\t5\nK0\tEQU\t[K0]\n\tMOV AX,K0\n", "sym0:\n\tDW sym1\n\tMOV AX,[sym0\n", "K3\tEQU\tK4\nK4\tEQU\tK3\n\tDD K3\n", "K1\tEQU\tK2*2\nK2\tEQU\t[K1*2]\n\tMOV AX,K2\n", "K4\tEQU\tK0\nK0\tEQU\tK4+1\n\tDW K4\n"} {
+		add("refused", s)
+	}
 	n += len(pool)
 	for i := 0; len(pool) < n; i++ {
 		switch i % 8 {
